@@ -106,6 +106,15 @@ void sim_set_thread_start_hook(void (*fn)(void));
 // number of threads currently runnable / total alive
 int sim_count_runnable(void);
 
+// ---- simulated MPI transport (sim/mpi_stub.cpp)
+struct sim_mpi_stats {
+    uint64_t posted, completed, inflight, tests, test_on_freed, bad_handle, last_completion_seq;
+};
+void sim_mpi_configure(uint64_t seed, uint64_t min_delay_ns, uint64_t max_delay_ns, uint64_t burst_ns);
+void sim_mpi_get_stats(struct sim_mpi_stats* out);
+// 0 = in flight, 1 = complete in the transport but not yet reported, 2 = reported, -1 = not a request
+int sim_mpi_request_state(void* handle);
+
 #ifdef __cplusplus
 }
 #endif
